@@ -49,4 +49,4 @@ def run(ctx):
     ctx.parallel(mextra.c05_tasks(), max_procs=6)
     # c10.rs: the two `prop=C10,C05` harnesses (sequence search == reference across the array roll-over) decide the C10 contract this property's crossing step assumes
     # c13.rs: the `prop=C13,C12,C05` harness (Pinocchio dynamic tick array: inserting a tick below an initialised one keeps that tick's stored contents) — the storage the liquidity bookkeeping relies on
-    ctx.run_kani(['c05.rs', 'c10.rs', 'c13.rs'])
+    ctx.run_kani(['c05.rs', 'c10.rs'] + (['c13.rs'] if ctx.tier == 'thorough' else []))      # the 20 GB dynamic-array history harness exceeds the quick budget: thorough tier only (C13's quick tier runs its core)
